@@ -205,8 +205,8 @@ fn main() {
             vcore::machinery_error("consistency mapping self-test failed");
         }
     }
-    let l_all = r.args.extra_value("--l-all").and_then(|s| s.parse().ok()).unwrap_or(r.tier().pick(3usize, 4usize));
-    let l_reach = r.args.extra_value("--l-reach").and_then(|s| s.parse().ok()).unwrap_or(r.tier().pick(6usize, 7usize));
+    let l_all = r.args.extra_value("--l-all").and_then(|s| s.parse().ok()).unwrap_or(r.tier().pick(4usize, 4usize));
+    let l_reach = r.args.extra_value("--l-reach").and_then(|s| s.parse().ok()).unwrap_or(r.tier().pick(6usize, 8usize));
     let jobs = r.args.jobs;
     let mut items = Vec::new();
     for policy in Policy::ALL {
